@@ -553,7 +553,7 @@ impl Gen {
             let k = match self.rng.below(30) {
                 0 => 0,
                 1 => *self.rng.pick(&[6u8, 8, 12, 18]),
-                2 if self.rng.chance(1, 3) => 19,
+                2 if self.rng.chance(1, 3) => *self.rng.pick(&[19u8, 19, 24, 30]),
                 _ => k,
             };
             decimals.push(k);
